@@ -288,7 +288,35 @@ def core_option_sets(ctx, n_random):
     return sets
 
 
+def exception_table(ctx):
+    """(D) the exception hierarchy table of Spec.PyCore against the running interpreter's builtins"""
+    import builtins
+    ans = ctx.driver.ask(['pycore.exctable'])[0]
+    if not ans.startswith('ok '):
+        ctx.add_broken('spec-validation', 'pycore.exctable', 'driver answered %r' % ans[:100])
+        return
+    model = {}
+    for line in sexp.dec_str(ans[3:]).split('\n'):
+        name, kind, parents, raised = line.split(' ')
+        model[name] = (kind, sorted(p for p in parents.split(',') if p), raised)
+    real = {}
+    for n in dir(builtins):
+        c = getattr(builtins, n)
+        if isinstance(c, type) and issubclass(c, BaseException) and c.__name__ == n:
+            try:
+                raised = type(c()).__name__
+            except TypeError:
+                raised = 'TypeError'
+            real[n] = ('E' if issubclass(c, Exception) else 'B', sorted(k.__name__ for k in c.__mro__[1:] if k not in (Exception, BaseException, object)), raised)
+    ctx.count(len(real))
+    if model != real:
+        d = [(k, model.get(k), real.get(k)) for k in sorted(set(model) | set(real)) if model.get(k) != real.get(k)]
+        ctx.add_broken('spec-validation', 'pycore.exctable', 'exception hierarchy differs from the interpreter: %r' % (d[:6],))
+    ctx.stage('spec-validation:exception-table', classes=len(real), agree=int(model == real))
+
+
 def run(ctx):
+    exception_table(ctx)
     core = [('core%d' % i, rungen.core_program(ctx.rng)) for i in range(ctx.scale(150, 3000))]
     spec_validation(ctx, core, 'generated')
     spec_validation(ctx, core[:ctx.scale(80, 1500)], 'generated', optimized=True)      # `python -O` semantics (runO)
